@@ -16,6 +16,15 @@ CHECKS = {
             "(incl. 200+ error cases per run). No axioms.",
             "Rocq/Coq proof over source-translated enums and tables + differential correspondence on generated and malformed JSON",
             "DESIGN.md section 6 C16"),
+    "C17": (True,
+            "Coq proofs for all batches: every (path, kind) of every event is listed in the variable of the kind's category as an entry whose "
+            "join with the common path is the path; nothing else is listed; entries strictly byte-sorted; the common path is the longest common "
+            "directory of the trunks and a prefix of every listed path; path-less / kind-less events contribute nothing; line format lists "
+            "pairs per event in order. Category and line-prefix tables are translated from the source; the model is run against "
+            "summarise_events_to_env and events_to_simple_format on generated batches.",
+            "Trusted: Coq kernel, translator, harness; std::path component semantics on normalised path strings, HashSet/HashMap as sets. No axioms.",
+            "Rocq/Coq proof (invariants over lists) + differential correspondence + independent Python monitors on implementation output",
+            "DESIGN.md section 6 C17"),
     "C19": (True,
             "Coq proofs over source-translated signal tables: display/parse round trip for every signal, case-insensitivity for all strings, agreement of the three spellings, Windows-name precedence, POSIX numbers, wait-status decoding for all codes and signals, the --map-signal splitter; model run against the real crates exhaustively over numbers, names in all case patterns and wait statuses.",
             "Trusted: Coq kernel, translator, harness; nix signal table, i32::from_str, to_ascii_uppercase, ExitStatusExt are modelled (nix table compared exhaustively each run). No axioms.",
